@@ -358,7 +358,7 @@ def parser_graph(ctx):
 
 
 STRICT_TREES = ['struct', 'lit', 'num', 'numtop', 'numobj', 'str', 'hex', 'tokens', 'nest', 'ws', 'strpad', 'keypad', 'numpad']
-SURR_TREES = ['surr', 'surrkey', 'surropen']
+SURR_TREES = ['surr', 'surrkey', 'surropen', 'surrpad']
 
 
 def c01(ctx):
@@ -367,7 +367,7 @@ def c01(ctx):
     files = parser_trees(ctx, STRICT_TREES + SURR_TREES) + byte_trees(ctx) + parser_graph(ctx)
     ctx.replay(files, ['C01.'])
     parser_trace(ctx, ['C01.'])
-    sweeps(ctx, ['raw_str', 'raw_key', 'esc_ascii', 'esc_u', 'esc_pair', 'esc_pair2', 'esc_hexchar'], 'C01.sweep',
+    sweeps(ctx, ['raw_str', 'raw_key', 'esc_ascii', 'esc_u', 'esc_pair', 'esc_pair2', 'esc_hexchar', 'ctx'], 'C01.sweep',
            'acceptance of a raw character / escape / escape pair differs from RFC 8259 (run-compressed exhaustive sweep)')
 
 
@@ -386,12 +386,20 @@ def c05(ctx):
     files = parser_trees(ctx, ['struct', 'tokens', 'nest', 'str', 'numobj', 'strpad', 'keypad', 'numpad'] + SURR_TREES) + parser_graph(ctx)
     ctx.replay(files, ['C05.'])
     parser_trace(ctx, ['C05.'])
+    # byte positions after every scalar, through the string and the byte-slice entry points: runs whose outcome is a code map
+    sweeps(ctx, ['ctx'], 'C05.sweep',
+           'number of fragments / span of the last fragment of a document holding this scalar differs from the specification (run-compressed exhaustive sweep)',
+           classify=lambda ev: 'C05.sweep' if ev.get('tag') == 'ok' else None)
 
 
 def c07(ctx):
     files = parser_trees(ctx, STRICT_TREES + SURR_TREES) + byte_trees(ctx) + parser_graph(ctx)
     ctx.replay(files, ['C07.'])
     parser_trace(ctx, ['C07.'])
+    # every scalar in 15 syntactic contexts (after a number, inside a literal, after a key ...): the error offset and character
+    sweeps(ctx, ['ctx'], 'C07.sweep',
+           'outcome (error offset / character, or the span of the last fragment) of a scalar in a syntactic context differs from the specification '
+           '(run-compressed exhaustive sweep)')
 
 
 def c12(ctx):
@@ -535,7 +543,7 @@ def wide_families(ctx):
     return ctx.mc(f'wide_{ctx.tier}', 'MC_Wide', {'Sizes': sizes}, {'NMax': 6}, ['ClosedForm', 'Dump'], spec='WSpec', workers=4)
 
 
-def printer_trace(ctx, aspect_layout, aspect_roundtrip):
+def printer_trace(ctx, aspect_layout, aspect_roundtrip, only=None):
     """record random values x random option records; TLC validates layout and round trip"""
     trace, s = ctx.record('record-print', 'print.ndjson', ['--n', 250 if ctx.quick else 3000])
     label = 'print'
@@ -555,7 +563,8 @@ def printer_trace(ctx, aspect_layout, aspect_roundtrip):
     lines = [x for x in open(trace).read().split('\n') if x]
     wanted = []
     if aspect_layout:
-        wanted += [(aspect_layout, l, 'recorded text differs from JsonPrinter!Render(value, options)') for l in res['bad']]
+        wanted += [(aspect_layout, l, 'recorded text differs from JsonPrinter!Render(value, options)') for l in res['bad']
+                   if only is None or only(json.loads(lines[l - 1]))]
     if aspect_roundtrip:
         wanted += [(aspect_roundtrip, l, 'recorded text does not parse back to the printed value') for l in res['bad2']]
     summ = {'label': label, 'events': res['events'], 'validated': res['events'] - len({l for _, l, _ in wanted}),
@@ -587,7 +596,12 @@ def c04(ctx):
 def c08(ctx):
     r = printer_model(ctx)
     ctx.replay([r['out'], printer_strings(ctx)['out'], wide_families(ctx)['out']], ['C08.'])
-    sweeps(ctx, ['print_str', 'print_key'], 'C08.sweep',
+    # recorded prints (values far larger than the model's, interleaved on one thread with prints under other option records):
+    # the events printed with the compact preset belong to C08
+    compact = {'indent': ['spaces', 0], 'alim': ['none'], 'olim': ['none']}
+    printer_trace(ctx, 'C08.trace', None,
+                  only=lambda ev: all(ev['o'].get(k) == v for k, v in compact.items()) and all(ev['o'][k] == 0 for k in ev['o'] if k not in compact))
+    sweeps(ctx, ['print_str', 'print_key', 'print_long_str', 'print_long_key'], 'C08.sweep',
            'compact printing of a one-character string / key differs from the RFC 8785 escaping (run-compressed exhaustive sweep)')
 
 
